@@ -2622,7 +2622,7 @@ func (t *Terminal) resizeIfNeeded() bool {
 	}
 	if (t.headerBorderShape.Visible() || t.headerLinesShape.Visible()) &&
 		(t.headerWindow == nil && primaryHeaderLines > 0 || t.headerWindow != nil && primaryHeaderLines != t.headerWindow.Height()) ||
-		t.headerLinesShape.Visible() && (t.headerLinesWindow == nil && t.headerLines > 0 || t.headerLinesWindow != nil && t.headerLines != t.headerLinesWindow.Height()) {
+		t.headerLinesShape.Visible() && (t.headerLinesWindow == nil && t.hasHeaderLinesWindow() || t.headerLinesWindow != nil && (!t.headerVisible || t.headerLines != t.headerLinesWindow.Height())) {
 		t.printAll()
 		return true
 	}
